@@ -15,7 +15,9 @@ import time
 VERIF = os.path.dirname(os.path.dirname(os.path.abspath(__file__)))
 REPO = os.environ.get('LOGICA_REPO', '/repo')
 SPEC = os.path.join(VERIF, 'spec')
-BUILD = os.path.join(VERIF, 'build')
+# scratch of this run; concurrent runs (another tree under test, another
+# seed) must be given their own VERIF_BUILD_DIR: trace shards are rewritten
+BUILD = os.environ.get('VERIF_BUILD_DIR') or os.path.join(VERIF, 'build')
 EVIDENCE = os.environ.get('VERIF_EVIDENCE_DIR') or os.path.join(VERIF, 'evidence')
 PY = '/venv/bin/python'
 NCPU = min(16, os.cpu_count() or 1)
